@@ -120,7 +120,7 @@ func TestC01(t *testing.T) {
 	// corpus under the default registry (enumerated; trivial by the NT rule)
 	co := gen.LoadCorpus()
 	idx := 0
-	for _, objs := range [][]gen.Obj{co.Certs, co.CRLs, co.OCSPs} {
+	for _, objs := range [][]gen.Obj{co.Certs, co.CRLs, co.OCSPs, gen.ReasonCodeCRLs(), gen.LargeCRLs()} {
 		for _, o := range objs {
 			idx++
 			if !stats.Mine(idx) {
@@ -156,7 +156,7 @@ func TestC01(t *testing.T) {
 	if sh, _ := stats.Shard(); sh == 0 {
 		for i := range lateKinds {
 			registerLate(i + 1)
-			for _, objs := range [][]gen.Obj{co.Certs, co.CRLs, co.OCSPs} {
+			for _, objs := range [][]gen.Obj{co.Certs, co.CRLs, co.OCSPs, gen.ReasonCodeCRLs(), gen.LargeCRLs()} {
 				for k := 0; k < 2 && k < len(objs); k++ {
 					o := objs[(k*7+i)%len(objs)]
 					c := engine.Case{Kind: o.Kind, DER: o.DER, Base: o.Name, NilReg: k == 1, Late: i + 1, Note: fmt.Sprintf("after %d late registrations", i+1)}
